@@ -114,7 +114,15 @@ def do_op(op, base, target, version, metafile, scratch, plen=1, alt=False, route
                             write_file(os.path.join(search, "wrong", *comps), content("sys/decoy/" + key, os.path.getsize(p), 7))
                 if route == "part" and os.path.isfile(fpath(base, "r/a")):
                     shutil.copyfile(fpath(base, "r/a"), os.path.join(search, "a"))
-            asm = Assembler([metafile], [search], dest)
+            dest_arg = dest
+            if route != "empty":
+                # the destination is NAMED the same in every rebuild of a history (a "current" link that is re-pointed
+                # to this step's directory): what the name resolved to earlier in the process is of no concern now
+                dest_arg = os.path.join(os.path.dirname(scratch), "dest-current-" + os.path.basename(scratch)[-2:])
+                if os.path.lexists(dest_arg):
+                    os.remove(dest_arg)
+                os.symlink(dest, dest_arg)
+            asm = Assembler([metafile], [search], dest_arg)
             n = asm.assemble_torrents()
             return {"status": "ok", "sig": "%s/%s" % (n, snap_sig(dest))}
     except SystemExit as ex:
